@@ -27,6 +27,7 @@ import Frp.Engines.Xtcp
 import Frp.Engines.Vmgr
 import Frp.Engines.Svc
 import Frp.Engines.Teardown
+import Frp.Engines.Xport
 /-! Registry of driver engines (one line per engine). -/
 namespace Frp.Engines
 open Frp.Proto
@@ -61,5 +62,7 @@ def all : List (String × Engine) :=
   , ("vmgr", vmgr)
   , ("svc", svc)
   , ("td", td)
+  , ("xport", xport)
+  , ("xprace", xport)
   ]
 end Frp.Engines
